@@ -2226,11 +2226,87 @@ def check_metadata_marker_reserved(ck, R):
                   "'log' after writing only 'log%s' takes it for the marker; the memory backend keeps the two keys apart, so the backends "
                   "disagree" % (cls.name, mname, suffix, suffix, suffix), fa.where())
     ck.need(n >= 4, "expected write_metadata / read_metadata on at least two storing backends, found %d methods" % n)
+    # the listing of a function's mementos selects files by a suffix: a metadata key ending in that suffix has a file the
+    # listing takes for a memento (D48)
+    lm = FA(ck, "storage_base.DataSourceMetadataSource.list_mementos")
+    lsuf = None
+    for c in lm.calls("list_keys_nonversioned"):
+        v = A.kwarg(c, "endswith") or (c.args[4] if len(c.args) > 4 else None)
+        if v is not None and lm.nodes(c):
+            e = lm.expand(v, lm.nodes(c)[0])
+            if isinstance(e, ast.Constant) and isinstance(e.value, str):
+                lsuf = e.value
+    if lsuf is None:
+        # the suffix may sit in a module constant the front end did not fold: any string ending '.json' in the listing
+        cands = [x for x in A.strings_in(lm.node) if x.startswith(".") and x.endswith(".json")]
+        lsuf = cands[0] if len(cands) == 1 else None
+    ck.need(lsuf is not None, "list_mementos: cannot identify the suffix by which memento files are selected")
+    for cls in storage_backend_classes(ck):
+        for mname in ("write_metadata", "read_metadata"):
+            m = cls.methods.get(mname)
+            if m is None:
+                continue
+            fa = FA(ck, m)
+            if not [st for st in fa.stmts() if not isinstance(st, (ast.Pass, ast.Return, ast.Expr)) or (isinstance(st, ast.Return) and st.value is not None and not A.is_none(st.value))
+                    or (isinstance(st, ast.Expr) and not isinstance(st.value, ast.Constant))]:
+                continue
+            kp = m.params[2] if len(m.params) > 2 else "key"
+            ok = _refuses_suffixed(ck, fa, {kp}, lsuf)
+            ck.ob(R, fa.key(None, "listing-suffix-refused"), ok, "a key ending in %r is refused" % lsuf if ok else
+                  "%s.%s accepts a metadata key that ends in %r, the suffix by which the filesystem backend selects the memento files of a function: "
+                  "list_mementos decodes the file of such a key as a memento (an error out of the listing, or a phantom memento), while the "
+                  "memory backend lists nothing of the kind" % (cls.name, mname, lsuf), fa.where())
+
+
+def check_listing_limit(ck, R):
+    """`limit` bounds the number of keys a listing yields, for every n >= 0.  A walk that counts an entry, yields it and only
+    then compares the count with the limit never stops for n = 0 (the memory backend slices, so it returns nothing): a
+    non-positive limit is answered up front, or the comparison comes before the yield / is an inequality (D47)."""
+    ck.rule(R, "a listing limit of zero yields nothing on every backend", 1)
+    fa = FA(ck, FSDS + ".list_keys_nonversioned")
+    lim = "limit"
+    walkers = [fa] + [FA(ck, w) for w in _walkers(ck, fa).values()]
+    eq_after_yield = []
+    for w in walkers:
+        for y in [n for n in ast.walk(w.node) if isinstance(n, (ast.Yield, ast.YieldFrom))]:
+            st = w.stmt_of(y)
+            if st is None or not w.nodes(st):
+                continue
+            # a test `count == limit` that is only reached after the element was yielded
+            for t in [n for n in w.cfg.nodes if n.kind == "test" and n.ast is not None]:
+                cmp_ = [c for c in ast.walk(t.ast) if isinstance(c, ast.Compare) and len(c.ops) == 1 and isinstance(c.ops[0], ast.Eq)
+                        and any(isinstance(x, ast.Name) and x.id == lim or (isinstance(x, ast.Name) and x.id != lim and w.fi is not fa.fi and x.id in w.fi.params) for x in ast.walk(c))
+                        and any(isinstance(x, ast.Name) and x.id == lim for x in ast.walk(c))]
+                if cmp_ and t.id in w.cfg.reach(w.nodes(st)) and not w.cfg.must_pass([t.id], w.nodes(st)[0]):
+                    eq_after_yield.append((w, t))
+    # answered up front: under the assumption `limit <= 0` (and limit is not None) the listing returns before any walk starts
+    from .effects import Assume
+
+    def atom(e):
+        if isinstance(e, ast.Compare) and len(e.ops) == 1 and isinstance(e.left, ast.Name) and e.left.id == lim:
+            op, r = e.ops[0], e.comparators[0]
+            if isinstance(r, ast.Constant) and r.value is None:
+                return isinstance(op, ast.IsNot) if isinstance(op, (ast.Is, ast.IsNot)) else None
+            if isinstance(r, ast.Constant) and isinstance(r.value, int):
+                # limit = 0
+                return {ast.LtE: 0 <= r.value, ast.Lt: 0 < r.value, ast.Eq: 0 == r.value, ast.GtE: 0 >= r.value, ast.Gt: 0 > r.value, ast.NotEq: 0 != r.value}.get(type(op))
+        if isinstance(e, ast.Name) and e.id == lim:
+            return False   # truthiness of 0
+        return None
+    asm = Assume(fa, atom)
+    live = asm.reach()
+    walk_sites = [i for c in fa.calls() if A.call_attr(c) in {w.fi.name for w in walkers[1:]} for i in fa.nodes(c)]
+    upfront = bool(walk_sites) and not any(i in live for i in walk_sites)
+    ok = upfront or not eq_after_yield
+    ck.ob(R, fa.key(None, "limit-zero-yields-nothing"), ok, "a non-positive limit is answered before any entry is yielded" if ok else
+          "the walk counts an entry, yields it and only then tests `count == limit`: with limit=0 the test never holds and every key is "
+          "listed, while the memory backend returns nothing for the same request", fa.where())
 
 
 def check(ck):
     from .memo import check_new_memo_tables
     ck.run(check_metadata_marker_reserved, ck, "C05.R4")
+    ck.run(check_listing_limit, ck, "C05.R8")
     from .c07 import check_override_namespace
     ck.rule("C05.R7", "caller-chosen override keys stay outside the areas the store keeps for itself (content objects, metadata tree)", 3)
     ck.run(check_override_namespace, ck, "C05.R7")
